@@ -159,6 +159,7 @@ func main() {
 			runProp(id, an)
 			an.closedTables(id)
 			an.closedEvents(id)
+			an.closedStateCallers(id)
 			r.Extra["configurations"] = appendStr(r.Extra["configurations"], cfgName)
 			r.Extra["functions_analysed"] = len(c.FuncSeq)
 			r.Extra["callgraph_nodes"] = len(c.CG.Nodes)
